@@ -6,7 +6,8 @@
 // Case:   {"rules": [{"ns": null|"name", "src": "<yara text>"}], "inputs": ["<hex>", ...]}
 //         {"probe": ["hash", "math", ...]}          which modules does each engine know
 // Result: {"yara":   {"error": text} | {"scans": [SCAN, ...]},
-//          "boreal": {"error": text} | {"panic": text} | {"scans": [SCAN, ...]}}
+//          "boreal": {"error": text} | {"panic": text} | {"scans": [SCAN, ...]},     CompilerProfile::Speed (default)
+//          "boreal_mem": the same under CompilerProfile::Memory}
 //   SCAN (yara):   {"err": null|text, "rules": [RULE, ...]}        every non-private rule, matched or not
 //   boreal also: "desc": [[nb literals, kind, reverse validator and literals of unequal lengths], ...] per string in compilation order (global rules' strings first),
 //                read through the hook Scanner::verif_describe_strings (cfg boreal_verif)
@@ -149,8 +150,14 @@ fn boreal_rule_json(r: &boreal::scanner::EvaluatedRule) -> Value {
     })
 }
 
-fn boreal_compile(case: &Value) -> Result<boreal::Scanner, String> {
-    let mut c = boreal::Compiler::new();
+fn boreal_compile(case: &Value, memory_profile: bool) -> Result<boreal::Scanner, String> {
+    let mut c = if memory_profile {
+        boreal::compiler::CompilerBuilder::new()
+            .profile(boreal::compiler::CompilerProfile::Memory)
+            .build()
+    } else {
+        boreal::Compiler::new()
+    };
     for r in case["rules"].as_array().expect("rules") {
         let src = r["src"].as_str().expect("src");
         match r["ns"].as_str() {
@@ -162,8 +169,8 @@ fn boreal_compile(case: &Value) -> Result<boreal::Scanner, String> {
     Ok(c.finalize())
 }
 
-fn run_boreal(case: &Value) -> Value {
-    let scanner = match boreal_compile(case) {
+fn run_boreal(case: &Value, memory_profile: bool) -> Value {
+    let scanner = match boreal_compile(case, memory_profile) {
         Ok(s) => s,
         Err(e) => return json!({"error": e}),
     };
@@ -217,7 +224,7 @@ fn probe(mods: &[Value]) -> Value {
         if yara_compile(&case).is_ok() {
             y.push(name.to_string());
         }
-        if boreal_compile(&case).is_ok() {
+        if boreal_compile(&case, false).is_ok() {
             b.push(name.to_string());
         }
     }
@@ -231,12 +238,18 @@ fn run(case: &Value) -> Value {
     set_stage(1);
     let y = run_yara(case);
     set_stage(2);
-    let b = match catch_unwind(AssertUnwindSafe(|| run_boreal(case))) {
+    let b = match catch_unwind(AssertUnwindSafe(|| run_boreal(case, false))) {
+        Ok(v) => v,
+        Err(e) => json!({"panic": panic_message(&*e)}),
+    };
+    // the compiler profile is a user option (CLI --profile memory): same file, same inputs again
+    set_stage(2);
+    let bm = match catch_unwind(AssertUnwindSafe(|| run_boreal(case, true))) {
         Ok(v) => v,
         Err(e) => json!({"panic": panic_message(&*e)}),
     };
     set_stage(0);
-    json!({"yara": y, "boreal": b})
+    json!({"yara": y, "boreal": b, "boreal_mem": bm})
 }
 
 fn main() {
